@@ -95,7 +95,26 @@ func main() {
 			def.run(c)
 			var variants []variantResult
 			if *tier == "thorough" && !*quiet {
-				variants = runVariants(id, *repo, *verif)
+				// the both-ways self-check is meaningful only on a tree that passes: on a violating tree the verdict stands alone
+				clean := true
+				known := loadKnown(*verif + "/known_findings.jsonl")
+				for _, in := range c.Instances {
+					if in.OK {
+						continue
+					}
+					isKnown := false
+					for _, k := range known {
+						if k.Status == "known" && k.Property == c.Prop && k.Rule == in.Rule && k.Construct == in.Construct {
+							isKnown = true
+						}
+					}
+					if !isKnown {
+						clean = false
+					}
+				}
+				if clean {
+					variants = runVariants(id, *repo, *verif)
+				}
 			}
 			if *quiet {
 				// variant mode: print failing instances only
